@@ -214,7 +214,8 @@ HCIcnbit_decode(compinfo_t *info, int32 length, uint8 *buf)
                     rbuf2 = rbuf;          /* set temporary pointer into buffer */
                     for (j = 0; j < nbit_info->nt_size; j++, mask_info++, rbuf2++) {
                         if (mask_info->length > 0) { /* check if we need to read bits */
-                            Hbitread(info->aid, mask_info->length, &input_bits);
+                            if (Hbitread(info->aid, mask_info->length, &input_bits) != mask_info->length)
+                                HRETURN_ERROR(DFE_CDECODE, FAIL);
                             input_bits <<= (mask_info->offset - mask_info->length) + 1;
                             *rbuf2 |= (uint8)(mask_info->mask & (uint8)input_bits);
                             if (j == sign_byte) /* check if this is the sign byte */
